@@ -1,7 +1,7 @@
 (* C04  The dialogue carries the exact envelope, whatever the server says.  Statements only. *)
 From Coq Require Import Strings.String.
 From LV Require Import Base.Bytes Base.Str Base.Res Model.Codec Model.Response Model.ServerInfo Model.Client
-  Spec.Xtext Proofs.ClientProofs Proofs.XtextProofs Proofs.HelloProofs.
+  Spec.Xtext Proofs.ClientProofs Proofs.XtextProofs Proofs.HelloProofs Proofs.ParamProofs.
 
 (* Order and exactness: on every peer script the units written by send() are a prefix of
    MAIL FROM:<reverse-path> [SMTPUTF8] [BODY=8BITMIME], RCPT TO:<a> for each recipient in
@@ -60,6 +60,14 @@ Proof. exact connect_refused. Qed.
 Example C04_example_hello : hello_ok (bs "a" ++ CRLF ++ bs "NOOP") = false /\ hello_ok (bs "client.example") = true.
 Proof. split; reflexivity. Qed.
 
+(* Custom MAIL parameters (keyword, or keyword "=" xtext(value)): for EVERY reverse path without CR / LF (C16), every
+   number of parameters and EVERY value - any octets - the MAIL command is one line; the only premise left is that the
+   keywords, identifiers chosen by the calling program, hold no CR / LF themselves. *)
+Theorem C04_mail_params_single_line : forall (from : option bytes) (ps : list (bytes * option bytes)),
+  match from with Some f => line_safe f | None => True end -> Forall (fun p => line_safe (fst p)) ps ->
+  exists body, show_mail from (map (fun p => show_param (fst p) (snd p)) ps) = body ++ CRLF /\ line_safe body.
+Proof. exact mail_with_params_one_line. Qed.
+
 (* Extension parameter values are valid xtext and decode to the value (ASCII values) *)
 Theorem C04_xtext : forall v : bytes, is_ascii v = true -> xdec (xtext v) = Some v.
 Proof. exact xtext_decodes. Qed.
@@ -77,3 +85,4 @@ Print Assumptions C04_xtext.
 Print Assumptions C04_xtext_line_safe.
 Print Assumptions C04_hello_single_line.
 Print Assumptions C04_hello_refused.
+Print Assumptions C04_mail_params_single_line.
